@@ -23,6 +23,7 @@ from typing import Any
 
 from detsim import env, gen, monitors, rng
 from detsim.observe import all_events, exc_token, us
+from detsim.runner import Discard
 from detsim.sched import HarnessError, Scheduler
 
 PROP = "C11"
@@ -132,7 +133,10 @@ def _execute_session(plan: dict[str, Any]) -> dict[str, Any]:
     from detsim import world
 
     world.install_log_sink()
-    chart = world.parse_text(plan["text"])
+    try:
+        chart = world.parse_text(plan["text"])
+    except Exception as e:  # noqa: BLE001
+        raise Discard("chart-rejected:" + type(e).__name__) from e
     be = chart.sync_track.bpm_events
     ticks = [e.tick for e in be]
     n = len(ticks)
